@@ -140,7 +140,7 @@ Proof.
     destruct (posrelat init (len s) - 1 >? len s) eqn:E2; lia. }
   destruct (len pb =? 0) eqn:E0; [lia|].
   unfold goFind. rewrite Hparse, Hbr. cbn [negb]. unfold find_fuel.
-  rewrite (scan_err p pb s true Hok Hpr Hparse Hbr Hs Hrl _ i Hi ltac:(lia) Er). reflexivity.
+  rewrite (scan_err p pb s true Hok Hpr Hparse Hbr Hs Hrl (Z.to_nat (len s - i) + 2) i Hi (le_n _) Er). reflexivity.
 Qed.
 
 Lemma match_refines_ref_total_lemma (p : seqpat) (pb s : bytes) (init : Z) :
@@ -160,5 +160,5 @@ Proof.
   { unfold i. destruct (posrelat init (len s) - 1 <? 0) eqn:E1; [lia|].
     destruct (posrelat init (len s) - 1 >? len s) eqn:E2; lia. }
   unfold goFind. rewrite Hparse, Hbr. cbn [negb]. unfold find_fuel.
-  rewrite (scan_err p pb s false Hok Hpr Hparse Hbr Hs Hrl _ i Hi ltac:(lia) Er). reflexivity.
+  rewrite (scan_err p pb s false Hok Hpr Hparse Hbr Hs Hrl (Z.to_nat (len s - i) + 2) i Hi (le_n _) Er). reflexivity.
 Qed.
